@@ -503,8 +503,8 @@ class Interp(CallMixin):
             n = 0
             while self.truth(self.eval(st.test, frame), st.test):
                 n += 1
-                if n > 64:
-                    raise Unsupported("while loop beyond 64 iterations")
+                if n > 20000:
+                    raise Unsupported("while loop beyond 20000 iterations")
                 try:
                     self.exec_block(st.body, frame)
                 except _Break:
